@@ -247,6 +247,21 @@ def _ij_status(ent, d, timeout, tag):
                         'not the fixed point; not replayed')]
 
 
+def h_safe_div(I):
+    """the run-time helper the generated code imports (andes.thirdparty.npfunc.safe_div), executed on symbols:
+    it must have the semantics the translation of generated code assumes: b == 0 -> 0, else a / b"""
+    from andes.thirdparty.npfunc import safe_div
+    from vlib.harness import AND, IMPLIES, NOT, EQ
+    from vlib import pysym
+    pysym.ENG.div_mode = 'fork'        # a division by zero inside the helper must not be assumed away
+    a, b = I.arr('a0', 'a1'), I.arr('b0', 'b1')
+    a0, b0 = a.copy(), b.copy()
+    r = safe_div(a, b)
+    return [(f'safe_div[{i}] = 0 if b == 0 else a / b',
+             AND(IMPLIES(EQ(b0[i], 0, tol=0.0), EQ(r[i], 0)), IMPLIES(NOT(EQ(b0[i], 0, tol=0.0)), EQ(r[i] * b0[i], a0[i]))))
+            for i in range(2)]
+
+
 def regen_jobs():
     """generate twice: second generation into a private scratch dir; compare function by function"""
     a = core.pycode_dir()
@@ -325,6 +340,10 @@ def main():
     t0 = time.time()
     res = core.pmap(check_model, [(n, timeout) for n in names])
     ck.merge(res)
+    from vlib import harness as H
+    import andes.thirdparty.npfunc as NPF
+    ck.encodes(NPF.safe_div)
+    ck.merge(H.run('npfunc.safe_div', h_safe_div))
     # regeneration twice
     a, b = regen_jobs()
     res2 = core.pmap(compare_regen, [(n, a, b, timeout) for n in names])
